@@ -343,11 +343,21 @@ func ruleR13_1(c *Check) {
 		return true, ""
 	}
 	// skipKey variable
+	// the "skip the remaining versions of this key" variable: the second argument of the SameKey test whose
+	// true branch skips the entry (`if SameKey(it.Key(), X) { …; continue }`)
 	var skip *types.Var
-	f.walk(func(n ast.Node) bool {
-		if vs, ok := n.(*ast.ValueSpec); ok {
-			for _, id := range vs.Names {
-				if id.Name == "skipKey" {
+	ak.walk(func(n ast.Node) bool {
+		is, ok := n.(*ast.IfStmt)
+		if !ok {
+			return true
+		}
+		call, ok := unparen(is.Cond).(*ast.CallExpr)
+		if !ok || w.Callee(call) != types.Object(w.Func("y.SameKey")) || len(call.Args) != 2 {
+			return true
+		}
+		if n := len(is.Body.List); n > 0 {
+			if b, ok := is.Body.List[n-1].(*ast.BranchStmt); ok && b.Tok == token.CONTINUE {
+				if id, ok := unparen(call.Args[1]).(*ast.Ident); ok {
 					skip, _ = w.Use(id).(*types.Var)
 				}
 			}
